@@ -1,7 +1,5 @@
 package main
 
-func extraDomain(name string, maxOrd, maxRep, nph int) *Domain { return nil }
-
 func extraCommand(name string, args []string) bool {
 	switch name {
 	case "ordinals":
